@@ -354,7 +354,7 @@ Proof.
       destruct Hcase as [[Er Hm]|[Er Hm]]; rewrite Er; simpl negb; cbv iota.
       * (* no literal at lvl *)
         destruct (Nat.eqb_spec (nlevel fnd) lvl) as [Heq|Hneq]; simpl negb; cbv iota.
-        -- destruct (cget c zcode_restrict [RN idf; vars] []); [exact I|].
+        -- destruct (cget c zcode_restrict [RN idf; vars] [nlevels s]); [exact I|].
            pose proof (rlevel_le s H (eref fhi)). pose proof (rlevel_le s H (eref flo)).
            apply (gjoin2_safe C ZINV extends extends_trans ref ref ref Qref Qref).
            ++ apply (IH s c (eref fhi) vhi (S lvl) M); auto; lia.
